@@ -25,3 +25,41 @@ Print Assumptions C20_supported_nonground.
 Theorem C20_ground_stable_iff : forall (sym_lt : sym -> sym -> Prop) (P : program), simple_prog P = true -> forall (I : list gatom) (T : interp), stable sym_lt P I T <-> Cleanup.stable gatom gF gsat (ground_prog sym_lt P I) T.
 Proof. exact (@ground_stable_iff). Qed.
 Print Assumptions C20_ground_stable_iff.
+
+From NGO Require Import Syntax.Ast Sem.Sym Sem.Sat Model.Dependency Meta.Chain Link.ChainSem Link.ChainSemGrouped.
+
+Theorem C20_supported_general : forall (sym_lt : sym -> sym -> Prop) (P : list stmt) (I : list gatom) (T : interp) (a : gatom), (forall (line : nat) (h : head) (b : list bodyelem), In (SRule line h b) P -> gen_head h) -> stable sym_lt P I T -> T a -> In a I \/ (exists (line : nat) (h : head) (b : list bodyelem) (s : subst), In (SRule line h b) P /\ head_derives (gvars_rule h b) s h a /\ body_sat sym_lt (gvars_rule h b) T T s b).
+Proof. exact (@supported_general). Qed.
+Print Assumptions C20_supported_general.
+
+Theorem C20_min_rule_meaning : forall (sym_lt : sym -> sym -> Prop) (dom mn : string) (P : list stmt) (I : list (string * list sym)) (T : interp), (forall (line : nat) (h : head) (b : list bodyelem), In (SRule line h b) P -> gen_head h) -> In (min_rule dom mn) P -> (forall (line : nat) (h : head) (b : list bodyelem), In (SRule line h b) P -> In (mn, 1) (head_names h) -> SRule line h b = min_rule dom mn) -> (forall v : sym, ~ In (mn, v :: nil) I) -> stable sym_lt P I T -> forall v : sym, T (mn, v :: nil) <-> least_in sym_lt T dom v.
+Proof. exact (@min_rule_meaning). Qed.
+Print Assumptions C20_min_rule_meaning.
+
+Theorem C20_next_rules_meaning : forall (sym_lt : sym -> sym -> Prop) (dom mn nx : string) (P : list stmt) (I : list (string * list sym)) (T : interp) (D : list sym), sym_order sym_lt -> (forall (line : nat) (h : head) (b : list bodyelem), In (SRule line h b) P -> gen_head h) -> In (next_rule_base dom mn nx) P -> In (next_rule_step dom nx) P -> (forall (line : nat) (h : head) (b : list bodyelem), In (SRule line h b) P -> In (nx, 2) (head_names h) -> SRule line h b = next_rule_base dom mn nx \/ SRule line h b = next_rule_step dom nx) -> (forall p n : sym, ~ In (nx, p :: n :: nil) I) -> stable sym_lt P I T -> Sorted.StronglySorted sym_lt D -> (forall v : sym, T (dom, v :: nil) <-> In v D) -> (forall v : sym, T (mn, v :: nil) <-> least_in sym_lt T dom v) -> forall p n : sym, T (nx, p :: n :: nil) <-> consecutive sym D p n.
+Proof. exact (@next_rules_meaning). Qed.
+Print Assumptions C20_next_rules_meaning.
+
+Theorem C20_next_pred_meaning : forall (sym_lt : sym -> sym -> Prop) (dom mn nx : string) (P : list stmt) (I : list (string * list sym)) (T : interp), sym_order sym_lt -> (forall (line : nat) (h : head) (b : list bodyelem), In (SRule line h b) P -> gen_head h) -> In (min_rule dom mn) P -> In (next_rule_base dom mn nx) P -> In (next_rule_step dom nx) P -> (forall (line : nat) (h : head) (b : list bodyelem), In (SRule line h b) P -> In (mn, 1) (head_names h) -> SRule line h b = min_rule dom mn) -> (forall (line : nat) (h : head) (b : list bodyelem), In (SRule line h b) P -> In (nx, 2) (head_names h) -> SRule line h b = next_rule_base dom mn nx \/ SRule line h b = next_rule_step dom nx) -> (forall v : sym, ~ In (mn, v :: nil) I) -> (forall p n : sym, ~ In (nx, p :: n :: nil) I) -> stable sym_lt P I T -> (exists l : list sym, forall v : sym, T (dom, v :: nil) <-> In v l) -> exists D : list sym, Sorted.StronglySorted sym_lt D /\ (forall v : sym, T (dom, v :: nil) <-> In v D) /\ (forall v : sym, T (mn, v :: nil) <-> hd_error D = Some v) /\ (forall p n : sym, T (nx, p :: n :: nil) <-> consecutive sym D p n).
+Proof. exact (@next_pred_meaning). Qed.
+Print Assumptions C20_next_pred_meaning.
+
+Theorem C20_next_pred_meaning_grouped : forall (sym_lt : sym -> sym -> Prop) (gs : list string), NoDup gs -> (forall x : string, In x gs -> ~ In x reserved) -> forall (dom mn nx : string) (P : list stmt) (I : list (string * list sym)) (T : interp), sym_order sym_lt -> (forall (line : nat) (h : head) (b : list bodyelem), In (SRule line h b) P -> gen_head h) -> In (min_rule_g gs dom mn) P -> In (next_rule_base_g gs dom mn nx) P -> In (next_rule_step_g gs dom nx) P -> (forall (line : nat) (h : head) (b : list bodyelem), In (SRule line h b) P -> In (mn, k1 gs) (head_names h) -> SRule line h b = min_rule_g gs dom mn) -> (forall (line : nat) (h : head) (b : list bodyelem), In (SRule line h b) P -> In (nx, k2 gs) (head_names h) -> SRule line h b = next_rule_base_g gs dom mn nx \/ SRule line h b = next_rule_step_g gs dom nx) -> (forall vs : list sym, Datatypes.length vs = k1 gs -> ~ In (mn, vs) I) -> (forall vs : list sym, Datatypes.length vs = k2 gs -> ~ In (nx, vs) I) -> stable sym_lt P I T -> forall g : list sym, Datatypes.length g = Datatypes.length gs -> (exists l : list sym, forall v : sym, T (dom, g ++ v :: nil) <-> In v l) -> exists D : list sym, Sorted.StronglySorted sym_lt D /\ (forall v : sym, T (dom, g ++ v :: nil) <-> In v D) /\ (forall v : sym, T (mn, g ++ v :: nil) <-> hd_error D = Some v) /\ (forall p n : sym, T (nx, g ++ p :: n :: nil) <-> consecutive sym D p n).
+Proof. exact (@next_pred_meaning_g). Qed.
+Print Assumptions C20_next_pred_meaning_grouped.
+
+Theorem C20_model_emits_these_rules_static : match dp_init (Globals.init_names ModelRun.prg_static nil) ModelRun.prg_static with | Ok st => snd (create_next_pred_for_annotated_pred ("dom", 1, 0 :: nil) 0 st) | _ => Raise "init" end = Ok (min_rule "dom" "__min_0_0dom" :: max_rule "dom" "__max_0_0dom" :: next_rule_base "dom" "__min_0_0dom" "__next_0_0dom" :: next_rule_step "dom" "__next_0_0dom" :: nil).
+Proof. exact (@ModelRun.model_static). Qed.
+Print Assumptions C20_model_emits_these_rules_static.
+
+Theorem C20_model_emits_these_rules_choice : match dp_init (Globals.init_names ModelRun.prg_choice (("d", 1) :: nil)) ModelRun.prg_choice with | Ok st => snd (create_next_pred_for_annotated_pred ("a", 1, 0 :: nil) 0 st) | _ => Raise "init" end = Ok (min_rule "__dom_a" "__min_0_0__dom_a" :: max_rule "__dom_a" "__max_0_0__dom_a" :: next_rule_base "__dom_a" "__min_0_0__dom_a" "__next_0_0__dom_a" :: next_rule_step "__dom_a" "__next_0_0__dom_a" :: nil).
+Proof. exact (@ModelRun.model_choice). Qed.
+Print Assumptions C20_model_emits_these_rules_choice.
+
+Theorem C20_model_emits_these_rules_grouped : match dp_init (Globals.init_names ModelRunG.prg nil) ModelRunG.prg with | Ok st => snd (create_next_pred_for_annotated_pred ("dom", 2, 1 :: nil) 1 st) | _ => Raise "init" end = Ok (min_rule_g ("G0" :: nil) "dom" "__min_1_1dom" :: max_rule_g ("G0" :: nil) "dom" "__max_1_1dom" :: next_rule_base_g ("G0" :: nil) "dom" "__min_1_1dom" "__next_1_1dom" :: next_rule_step_g ("G0" :: nil) "dom" "__next_1_1dom" :: nil).
+Proof. exact (@ModelRunG.model_grouped). Qed.
+Print Assumptions C20_model_emits_these_rules_grouped.
+
+Theorem C20_sanity_instance : forall sym_lt : sym -> sym -> Prop, sym_order sym_lt -> exists D : list sym, Sorted.StronglySorted sym_lt D /\ (forall v : sym, Sanity.T3 ("dom", v :: nil) <-> In v D) /\ (forall v : sym, Sanity.T3 ("mn", v :: nil) <-> hd_error D = Some v) /\ (forall p n : sym, Sanity.T3 ("nx", p :: n :: nil) <-> consecutive sym D p n).
+Proof. exact (@Sanity.sanity_instance). Qed.
+Print Assumptions C20_sanity_instance.
